@@ -449,11 +449,26 @@ class SymSpec(object):
                     if cand.kind == "sum" and cand.const.get_id() == v.arg(0).get_id():
                         at = cand
             if at is None:
+                # the extent of a one-dimensional domain is the sum of 1 over it
+                core = v.arg(0) if z3.is_app(v) and v.decl().kind() == z3.Z3_OP_TO_REAL else v
+                for ax in CTX.all_axes:
+                    if z3.is_expr(ax.size.v) and ax.size.v.get_id() == core.get_id():
+                        at = _SizeAtom(ax)
+                        break
+            if at is None:
                 raise Unsupported("lin_zero: %s is not a sum atom" % v)
             ats.append((coef, at))
         if not ats:
             return SBool(const == 0)
-        axes = ats[0][1].axes
+        real = [a for _, a in ats if not isinstance(a, _SizeAtom)]
+        if not real:
+            raise Unsupported("lin_zero over extents only")
+        axes = real[0].axes
+        for _, a in ats:
+            if isinstance(a, _SizeAtom):
+                if len(axes) != 1 or axes[0] is not a.ax:
+                    raise Unsupported("lin_zero: extent of another domain")
+                a.axes = axes
         if any(len(a.axes) != len(axes) or any(x is not y for x, y in zip(a.axes, axes)) for _, a in ats):
             raise Unsupported("lin_zero over different domains")
         idx = tuple(ax.fresh_index("q") for ax in axes)
@@ -464,6 +479,16 @@ class SymSpec(object):
                 t = z3.ToReal(t)
             tot = tot + coef * t
         return SBool(z3.And(z3.Implies(sym.rng(idx), tot == 0), z3.BoolVal(const == 0)))
+
+
+class _SizeAtom(object):
+    """Sigma_i 1 over a one-dimensional domain (its extent), for lin_zero"""
+    def __init__(self, ax):
+        self.ax = ax
+        self.axes = (ax,)
+
+    def fn(self, idx):
+        return z3.RealVal(1)
 
 
 def sym_value(v):
